@@ -18,6 +18,12 @@ if ! go build -modfile="$W/go.mod" -tags verif -o "$W/root/bin/check" ./cmd/chec
 if [ "$ID" = "C19" ]; then go build -race -modfile="$W/go.mod" -tags verif -o "$W/root/bin/check-race" ./cmd/check || exit 7; fi
 VERIF_ROOT="$W/root" "$W/root/bin/check" "$ID" --tier "$TIER" > "$W/out.log" 2>&1
 rc=$?
+# same crash net as run.sh: a fatal runtime error / uncaught panic of the check process is a violation
+if [ $rc -ne 0 ] && [ $rc -ne 1 ] && grep -aqE '^(fatal error:|panic:)' "$W/out.log"; then
+  echo "VIOLATION property=$ID replay=process-crash.log" >> "$W/out.log"
+  echo "  signature=check process crashed: $(grep -a -m1 -E '^(fatal error:|panic:)' "$W/out.log")" >> "$W/out.log"
+  rc=1
+fi
 echo "$P $ID rc=$rc violations=$(grep -ac '^VIOLATION' "$W/out.log")"
 grep -a "^  signature" "$W/out.log" | head -5 | cut -c1-300
 if [ $rc -ne 0 ] && [ $rc -ne 1 ]; then grep -aE '^(fatal error:|panic:|INCONCLUSIVE)' "$W/out.log" | head -3; fi
